@@ -88,7 +88,7 @@ def main():  # noqa: PLR0912, PLR0915
     timeout_ms = 10000 if tier == "quick" else 60000
     jobs = []
     for n in names:
-        carve_ids = [f["carveout"] for f in findings["findings"] if f["status"] == "open" and f.get("contract") == n and f.get("carveout")]
+        carve_ids = [f["carveout"] for f in findings["findings"] if f["status"] == "open" and n in f.get("contracts", []) and f.get("carveout")]
         jobs.append((n, carve_ids, timeout_ms))
     mon_jobs = [(m, tier, seed) for m in monitors.MONITORS.get(prop, [])]
 
